@@ -284,7 +284,7 @@ func init() {
 		Harnesses: []harnessSpec{
 			{Pkg: "websocket", Func: "HarnessC15_Concurrent", TimeFixed: true, TimersMayFire: true, Race: true, Labels: []string{"concurrent"},
 				Bound:  "client or server; data message of 2 (thorough 2-3) symbolic bytes sent through a 15-byte write buffer (3-4 frames) or, as server, 31 bytes in one unbuffered write; 1 ping sender with a 1-byte (thorough 0-1) payload, without deadline or with a deadline that may expire while it waits for the write lock; optional close sender; all schedules",
-				BoundT: "1-2 control senders (ping, pong)"},
+				BoundT: "1-2 control senders (ping, pong) when no close sender takes part; with the close sender, 1 control sender (the 4-party space, >5 million schedules, was explored once in 35 min without a counterexample and is outside the registered bound)"},
 		},
 	})
 	reg(&propSpec{
